@@ -270,6 +270,18 @@ func extractFunc(f Facts, fset *token.FileSet, info *types.Info, dir, fn string,
 				return true
 			})
 		}
+		// boundOf: which rounding each side gets (R11): every condition and every return, in source order
+		if fn == "numericValidator.boundOf" {
+			ast.Inspect(fd.Body, func(m ast.Node) bool {
+				switch t := m.(type) {
+				case *ast.IfStmt:
+					f["genBoundary"] = append(f["genBoundary"], fn+": if "+text(fset, t.Cond))
+				case *ast.ReturnStmt:
+					f["genBoundary"] = append(f["genBoundary"], fn+": "+text(fset, t))
+				}
+				return true
+			})
+		}
 		if fn == "numericValidator.valueOf" || fn == "getMinIntType" || fn == "PrimitiveTypeFromJSONSchemaType" {
 			ast.Inspect(fd.Body, func(m ast.Node) bool {
 				switch t := m.(type) {
